@@ -73,6 +73,7 @@ class SeqRun:
 
     def __init__(self, bin, tier, args=None, budget=120):
         self.bin, self.tier, self.args, self.budget = bin, tier, list(args or []), budget
+        self.jobs = 16  # the enumerators fan out over all cores themselves
 
     def target(self, bdir):
         return '%s/seq/%s' % (bdir, self.bin)
